@@ -250,6 +250,26 @@ class Run:
             self.violations.append({"obligations": rep["obligations"], "replay": path, "reproduced": True})
         return res
 
+    def query_mode(self, mode, n):
+        spec = {"mode": mode, "seed": self.seed, "n": n}
+        res = rt_call(None, spec, script="query_rt.py", timeout=3000)
+        if res.get("status") != "ok":
+            self.undecided.append({"obligations": [f"{self.pid}/query-harness"], "why": "run-time harness failed: " + str(res.get("why"))[-300:]})
+            return res
+        self.bounded.append({"what": f"query harness mode {mode} on the real aw_query", "bound": f"{n} generated texts", "cases": res.get("runs", 0),
+                             "stats": res.get("stats")})
+        seen = set()
+        for v in res.get("violations", []):
+            key = v["problem"].split(" escaped from ")[-1] if " escaped from " in v["problem"] else v["problem"][:40]
+            if key in seen:
+                continue
+            seen.add(key)
+            rep = {"property": self.pid, "kind": "query", "mode": mode, "text": v["text"], "problem": v["problem"],
+                   "obligations": [f"{self.pid}/aw_query.query/{mode}"], "reproduced": True}
+            path = self.write_replay(rep)
+            self.violations.append({"obligations": rep["obligations"], "replay": path, "reproduced": True})
+        return res
+
     def ledger_names(self):
         led = load_json(LEDGER, {})
         return set(led.get(self.pid, {}).keys())
